@@ -1,6 +1,6 @@
 """C09 -- combining and reshaping columns preserves every untouched value."""
 import ast
-from ..common import interp, ours, calls_in, norm, DF, kw
+from ..common import precedes, interp, ours, calls_in, norm, DF, kw
 from ..model import AnalysisError, body_nodes
 from ..facts import facts_at
 from ..dataflow import defs_reaching
@@ -84,57 +84,95 @@ def check(ctx):
            "union of the column names in first-seen order" if ok else
            "the union of names is not an order-preserving de-duplication over all inputs (a set loses the order)",
            clause="the union of the columns in first-seen order")
-    gp = rb.nested.get("get_part")
-    if gp is None:
-        raise AnalysisError("anchor vanished: rbind.get_part")
+    # The parts of one output column, in either form:
+    #   A  parts = [helper(x, colname) for x in data_frames]   (helper = nested function deciding per input)
+    #   B  parts = []; for data in data_frames: parts.append(...)  under complementary conditions
+    from ..forms import value_cases, contributions, resolve
     ys = yields_of(rb)
-    ok = False
+    cases = None          # [(value expr, facts, owner function, node)]
+    D = C = None
+    order_ok = False
     node = rb.node
     if ys and bcn is not None:
         y = ys[0]
+        node = y
         loop = enclosing_loop(rb, y)
         if loop is not None and text(loop.iter) == text(bcn["_CN"]) and isinstance(y.value, ast.Tuple) and len(y.value.elts) == 2 \
                 and text(y.value.elts[0]) == text(loop.target):
             cn = text(loop.target)
-            # the yielded column is (a DataFrameColumn of) the concatenation of one part per input, in input order
             val = y.value.elts[1]
             exprs = [val]
             if isinstance(val, ast.Name):
                 exprs = [d.value for d in defs_reaching(rb, val.id, y) if d.value is not None]
-            good = bool(exprs)
-            for e in exprs:
-                cc = [c for c in ast.walk(e) if isinstance(c, ast.Call) and repo.dotted(rb, c.func) == "numpy.concatenate"]
-                if not cc:
-                    good = False
-                    continue
+            cc = [c for e in exprs for c in ast.walk(e) if isinstance(c, ast.Call) and repo.dotted(rb, c.func) == "numpy.concatenate"]
+            if len(cc) == len(exprs) == 1:
                 parts = cc[0].args[0]
-                pex = [parts]
                 if isinstance(parts, ast.Name):
-                    pex = [d.value for d in defs_reaching(rb, parts.id, y) if d.value is not None]
-                if not all(pmatch(f"[get_part(_X, {cn}) for _X in _FS]", pe, env) is not None for pe in pex):
-                    good = False
-            ok = good
-            node = y
-    ctx.ob("ORD-2", rb, "column = concatenate([get_part(x, colname) for x in data_frames]) for every name of the union", node, ok,
+                    pdefs = [d.value for d in defs_reaching(rb, parts.id, y) if d.value is not None]
+                    comp = [pe for pe in pdefs if isinstance(pe, ast.ListComp)]
+                    if len(pdefs) == 1 and comp:
+                        parts = comp[0]
+                if isinstance(parts, ast.ListComp):
+                    for hname, h in rb.nested.items():
+                        if pmatch(f"[{hname}(_X, {cn}) for _X in _FS]", parts, env) is not None and len(h.params) == 2:
+                            D, C = h.params
+                            cases = [(leaf, f_, h, n_) for n_, leaf, f_ in value_cases(h, "return")]
+                            order_ok = True
+                elif isinstance(parts, ast.Name):
+                    cs = [x for x in contributions(rb, parts.id, y) if not x.get("whole")]
+                    if cs and all(x["iter"] is not None and text(x["iter"]) == text(FS) and isinstance(x["target"], ast.Name) for x in cs) \
+                            and len({x["target"].id for x in cs}) == 1 and all(_within_loop(rb, x["node"], loop) for x in cs):
+                        D, C = cs[0]["target"].id, cn
+                        from ..facts import close_under_negation
+                        cases = [(x["value"], frozenset(close_under_negation(facts_at(rb, x["node"]))), rb, x["node"]) for x in cs]
+                        # the list is started afresh for every column
+                        fresh = [n for n in loop.body if isinstance(n, ast.Assign) and text(n.targets[0]) == parts.id
+                                 and isinstance(n.value, ast.List) and not n.value.elts]
+                        order_ok = bool(fresh)
+    ok = cases is not None and order_ok
+    ctx.ob("ORD-2", rb, "column = concatenate(one part per input, in input order) for every name of the union", node, ok,
            "one part per input, in input order, stacked in that order, for every name of the union" if ok else
            "a column of the result is not the concatenation of one part per input in input order",
            clause="each input's rows are recoverable by position")
-    vals = {norm(n.value) for n in body_nodes(gp.node) if isinstance(n, ast.Attribute) and n.attr == "na_value"}
-    dts = {norm(n.value) for n in body_nodes(gp.node) if isinstance(n, ast.Attribute) and n.attr == "na_dtype"}
-    ok = vals == dts and len(vals) == 1
-    ctx.ob("ORD-2", gp, f"na_value of {sorted(vals)} / na_dtype of {sorted(dts)}", gp.node, ok,
-           "missing part uses the reference column's own NA value and NA-capable dtype" if ok else
-           "NA value and NA dtype of the synthesised part come from different columns", clause="missing values in a type able to hold them")
-    reps = [c for _, c in calls_in(gp) if isinstance(c.func, ast.Attribute) and c.func.attr == "repeat"]
-    ok = bool(reps) and norm(reps[0].args[0]) == f"{gp.params[0]}.nrow"
-    ctx.ob("ORD-2", gp, norm(reps[0]) if reps else "repeat(data.nrow)", reps[0] if reps else gp.node, ok,
-           "an input lacking the column contributes exactly its own number of rows" if ok else
-           "the synthesised part does not have the lacking input's row count", clause="the sum of the row counts")
-    first_if = [n for n in gp.node.body if isinstance(n, ast.If)]
-    ok = bool(first_if) and norm(first_if[0].test) == f"{gp.params[1]} in {gp.params[0]}" and any(
-        isinstance(r, ast.Return) and norm(r.value) == f"{gp.params[0]}[{gp.params[1]}]" for r in first_if[0].body)
-    ctx.ob("ORD-2", gp, "existing column is used as is", first_if[0] if first_if else gp.node, ok,
+    if cases is None:
+        cases = []
+    has = [c for c in cases if ("T", f"{C} in {D}") in c[1]]
+    lack = [c for c in cases if ("F", f"{C} in {D}") in c[1] or ("T", f"{C} not in {D}") in c[1]]
+    rest = [c for c in cases if c not in has and c not in lack and not (isinstance(c[0], ast.Constant) and c[0].value is None)]
+    ok = bool(has) and bool(lack) and not rest
+    ctx.ob("ORD-2", rb, f"parts decided by `{C} in {D}`: {len(has)} when present, {len(lack)} when absent, {len(rest)} otherwise",
+           (has or lack or [(None, None, None, node)])[0][3], ok,
+           "every input contributes exactly one part: its own column when it has one, a synthesised part when it lacks it" if ok else
+           "the parts of a column are not decided by whether the input has the column (an input contributes no part, or two)",
+           clause="the sum of the row counts")
+    ok = bool(has) and all(pmatch(f"{D}[{C}]", v) is not None for v, _, _, _ in has)
+    ctx.ob("ORD-2", rb, "existing column is used as is", has[0][3] if has else node, ok,
            "an input that has the column contributes it unchanged" if ok else "an existing column is not used as is", nontrivial=False)
+    n_lack = 0
+    for v, f_, owner, at in lack:
+        n_lack += 1
+        b = pmatch(f"__.fast([_V], _T).repeat({D}.nrow)", v)
+        if b is None:
+            b2 = pmatch("__.fast([_V], _T).repeat(_N)", v)
+            ctx.ob("ORD-2", owner, text(v), at, False,
+                   "the synthesised part does not have the lacking input's row count" if b2 is not None else
+                   "the part for an input lacking the column is not a repetition of the missing value", clause="the sum of the row counts")
+            continue
+        ctx.ob("ORD-2", owner, text(v), at, True, "an input lacking the column contributes exactly its own number of rows",
+               clause="the sum of the row counts")
+        srcs = {}
+        for key, attr in (("_V", "na_value"), ("_T", "na_dtype")):
+            e = b[key]
+            vs = [e]
+            if isinstance(e, ast.Name):
+                vs = [d.value for d in defs_reaching(owner, e.id, at) if d.value is not None]
+            srcs[attr] = {norm(x.value) if isinstance(x, ast.Attribute) and x.attr == attr else f"?{norm(x)}" for x in vs}
+        ok = srcs["na_value"] == srcs["na_dtype"] and len(srcs["na_value"]) == 1 and not next(iter(srcs["na_value"])).startswith("?") \
+            and next(iter(srcs["na_value"])).endswith(f"[{C}]")
+        ctx.ob("ORD-2", owner, f"na_value of {sorted(srcs['na_value'])} / na_dtype of {sorted(srcs['na_dtype'])}", at, ok,
+               "missing part uses the reference column's own NA value and NA-capable dtype" if ok else
+               "NA value and NA dtype of the synthesised part come from different columns", clause="missing values in a type able to hold them")
+    ctx.count("synthesised-part cases of rbind", n_lack, 1 if cases else 0)
     # ----------------------------------------------------------------- NAME
     sel = repo.fn(f"{DF}.select")
     ys = yields_of(sel)
@@ -188,7 +226,7 @@ def check(ctx):
     if seen_guard:
         bsg = pmatch("_C in _SEEN", seen_guard[0].test)
         adds = [c for _, c in calls_in(cb) if pmatch("_SEEN.add(_C)", c, bsg) is not None]
-    ok = bool(seen_guard) and bool(adds) and bool(ys) and seen_guard[0].lineno < adds[0].lineno < ys[0].lineno \
+    ok = bool(seen_guard) and bool(adds) and bool(ys) and precedes(cb, seen_guard[0], adds[0]) and precedes(cb, adds[0], ys[0]) \
         and isinstance(ys[0].value, ast.Tuple) and text(ys[0].value.elts[0]) == text(pmatch("_C in _SEEN", seen_guard[0].test)["_C"])
     ctx.ob("DUP", cb, "skip names already seen; record; yield", seen_guard[0] if seen_guard else cb.node, ok,
            "the first column of a name wins" if ok else "cbind does not keep the first of duplicate names",
@@ -248,3 +286,12 @@ def _top_stmt(fn, node):
     while fn.module.parent.get(p) is not fn.node:
         p = fn.module.parent.get(p)
     return p
+
+
+def _within_loop(fn, node, loop):
+    p = node
+    while p is not None:
+        if p is loop:
+            return True
+        p = fn.module.parent.get(p)
+    return False
